@@ -16,16 +16,21 @@ LEVEL = 'proof'
 # SPEC: the comparison, straight from the property text (dicts and sets; independent of the Coq functions)
 # ---------------------------------------------------------------------------------------------------------
 
-def spec_diff(r):
-    """Returns list of (table, kind, subject, name, a, b, text, case)."""
+def spec_diff(r, py=None, stage=''):
+    """Returns list of (table, kind, subject, name, a, b, text, case). py: the Python snapshot compared (default: the one
+    taken right after import); stage: suffix of the table names ('@after-use' for the snapshot taken after use)."""
     out = []
+    py = py or r['py']
     ex = r['exceptions']
     co = {(x['enum'], x['name']) for x in ex['cpp_only']}
     po = {(x['enum'], x['name']) for x in ex['py_only']}
     ren = {(x['enum'], x['cpp']): x['py'] for x in ex['renamed']}
-    cv, pe = r['cpp']['enum_values'], r['py']['enums']
+    cv, pe = r['cpp']['enum_values'], py['enums']
 
     def add(table, kind, subject, name, a, b, text, **case):
+        table += stage
+        if stage:
+            text = '[after the library has been used in the same interpreter] ' + text
         out.append((table, kind, subject, name, a, b, text, dict(case, table=table, kind=kind, subject=subject, name=name)))
 
     paired = [p for p in r['pairing'].values() if p]
@@ -37,6 +42,9 @@ def spec_diff(r):
         where = '%s:%d' % (e['file'], e['line'])
         if not pk:
             add('enum', 'no-python-enum', en, '', 0, 0, 'C++ enum class %s (%s) has no Python IntEnum counterpart' % (en, where), cpp_rows=cv[en])
+            continue
+        if pk not in pe:
+            add('enum', 'no-python-enum', en, pk, 0, 0, 'Python enum %s no longer exists' % pk)
             continue
         rows, prows = cv[en], pe[pk]
         pd = {}
@@ -73,8 +81,8 @@ def spec_diff(r):
                 add('enum', 'python-member-not-in-cpp', en, m, v, 0, txt, python_value=v, cpp_value=(cvs or [None])[0], python_enum=pk)
 
     # classification
-    pc = r['py']['classification']
-    pcmd, presp = set(r['py']['command_messages']), set(r['py']['response_messages'])
+    pc = py['classification']
+    pcmd, presp = set(py['command_messages']), set(py['response_messages'])
     pcd = {}
     for v, c, rr in pc:
         pcd.setdefault(v, []).append((bool(c), bool(rr)))
@@ -102,7 +110,7 @@ def spec_diff(r):
                 'COMMAND_MESSAGES/RESPONSE_MESSAGES holds %d, which is not a C++ MessageType' % v, value=v)
 
     # registry
-    cm, pcl, reg = r['cpp']['messages'], r['py']['classes'], r['py']['registry']
+    cm, pcl, reg = r['cpp']['messages'], py['classes'], py['registry']
     for kind, lst in (('duplicate-type-cpp', [t for _, t, _ in cm]), ('duplicate-type-python', [t for _, t, _ in pcl]),
                       ('duplicate-type-registry', [t for t, _ in reg])):
         if len(set(lst)) != len(lst):
@@ -134,6 +142,33 @@ def spec_diff(r):
     return out
 
 
+def stability_rows(r):
+    """rows (not part of the Coq tables): what differs between the snapshot at import and the one after use, and the
+    static scan's hits"""
+    out = []
+    a, b = r['py'], r['py']['after_use']
+    for key in ('command_messages', 'response_messages', 'classification', 'classes', 'registry', 'by_name', 'enums'):
+        if a.get(key) != b.get(key):
+            if isinstance(a.get(key), list):
+                la, lb = [json.dumps(x) for x in a[key]], [json.dumps(x) for x in b[key]]
+                d = {'lost': [json.loads(x) for x in la if x not in lb][:12], 'gained': [json.loads(x) for x in lb if x not in la][:12]}
+            else:
+                d = {'changed_enums': sorted(k for k in set(a[key]) | set(b[key]) if a[key].get(k) != b[key].get(k))}
+            out.append(('stability', 'table-changed-by-use', key, '', 0, 0,
+                        'the Python table %s is different after the library has been used in the same interpreter: %s' % (key, json.dumps(d)[:400]),
+                        dict(d, table='stability', kind='table-changed-by-use', subject=key, name='',
+                             exercised=r['py'].get('exercised', {}).get('ok', []))))
+    for k, v in a.get('object_ids', {}).items():
+        if b.get('object_ids', {}).get(k) != v:
+            out.append(('stability', 'registry-object-replaced', k, '', 0, 0, 'after use, %s is a different object than at import' % k,
+                        {'table': 'stability', 'kind': 'registry-object-replaced', 'subject': k, 'name': ''}))
+    for h in r['py'].get('static_hits', []):
+        out.append(('stability', 'registry-mutated-in-place-by-library-code', h.split(':')[0], h.split(': ', 1)[-1], 0, 0,
+                    'library code changes a registry object (or a name bound to it) in place: %s' % h,
+                    {'table': 'stability', 'kind': 'registry-mutated-in-place-by-library-code', 'subject': h.split(':')[0], 'name': h.split(': ', 1)[-1], 'where': h}))
+    return out
+
+
 def run_model():
     exe = vf.build_extracted('c03', 'C03', 'c03_driver.ml', conv=False)
     rc, lines, err = vf.run_lines(exe, [])
@@ -148,7 +183,7 @@ def run_model():
 
 def evaluate(ctx):
     r = gen_c03.generate()
-    spec = spec_diff(r)
+    spec = spec_diff(r) + spec_diff(r, r['py']['after_use'], '@after-use') + stability_rows(r)
     return r, spec
 
 
@@ -179,8 +214,9 @@ def run(ctx):
     elif ctx.thorough:
         coqchk(ctx)
     model = run_model()
-    spec = spec_diff(r)
+    spec = spec_diff(r) + spec_diff(r, r['py']['after_use'], '@after-use')
     spec_keys = {s[:6] for s in spec}
+    spec = spec + stability_rows(r)
     for row in corpus_rows():       # rows that failed in the past: re-evaluated first, reported like any other row
         again = any((s[0], s[1], s[2], s[3]) == tuple(row.get(k) for k in ('table','kind','subject','name')) for s in spec)
         ctx.count('corpus row ' + ('mismatching again' if again else 'agrees now'))
@@ -233,6 +269,10 @@ def run(ctx):
         if row['name'] not in [n for n, _ in (r['py']['enums'].get(pk) or [])]:
             ctx.notes.append('exception row not used (no such Python member now): %s.%s' % (row['enum'], row['name']))
     ctx.notes += r['py'].get('notes', [])
+    ex = r['py'].get('exercised', {})
+    ctx.coverage['use_between_the_two_snapshots'] = {'steps_run': len(ex.get('ok', [])), 'steps_skipped': ex.get('skipped', []), 'seconds': ex.get('seconds'),
+                                                       'steps': ex.get('ok', [])}
+    ctx.coverage['static_scan_hits'] = r['py'].get('static_hits', [])
     ctx.sample({'enum MessageType (first rows)': r['cpp']['enum_values']['MessageType'][:4]})
     ctx.sample({'classification rows': r['cpp']['classification'][30:34]})
     ctx.sample({'cpp_messages': r['cpp']['messages'][:3], 'py_classes': r['py']['classes'][:3]})
@@ -248,7 +288,7 @@ def run(ctx):
 def replay(ctx, rec):
     case = rec.get('case', rec)
     r = gen_c03.generate()
-    spec = spec_diff(r)
+    spec = spec_diff(r) + spec_diff(r, r['py']['after_use'], '@after-use') + stability_rows(r)
     hit = [s for s in spec if s[0] == case.get('table') and s[1] == case.get('kind') and s[2] == case.get('subject') and s[3] == case.get('name')]
     print('recorded row :', json.dumps(case, default=str))
     if hit:
